@@ -42,6 +42,10 @@ THEOREMS = ['output_runs_clean', 'render_eq_closed', 'stdout_eq', 'status_cfg_fr
             'colour_strip_section', 'colour_strip', 'colour_strip_exact', 'json_once', 'json_every_level', 'json_option_free', 'json_stdout_single',
             'json_verbose_repaired', 'json_error_path', 'json_error_not_single', 'json_info_perm_text']
 EXTENSIONS = ['props.ext.C15_jsondoc']
+# functions / statement blocks of the code whose Lean definitions are regenerated from the source on every run (harness/translate_logic.py);
+# `GenLogic.<name>_eq_model` (lean/SshAudit/Props/GenLogic*.lean) ties each to the hand-written model function the theorems above are about
+GEN_LOGIC = ['get_level', 'print_filtered', 'append_line']
+
 TECHNIQUE = ('Lean 4 theorems about an executable model of OutputBuffer (state machine: level filter, always_print, sections, sort, line_ended, colours, v()/write) run on the call sequence of output() '
              '(closed form by induction; level filter via uniqueness of sorted permutations; colour strip; JSON mode) + correspondence on the full 72-point option grid through the real output() and main() '
              '+ independent oracle on the captured text + subprocess runs under four hash seeds (testing)')
